@@ -762,4 +762,38 @@ theorem decodeItems_ok {X} (num : Num X) (sp : Space) (hs : SpaceOk sp) (x : Lis
     omega
   · rw [hP2'.acct]; exact hle
 
+/-! ### the fuel of the phase-1 search is immaterial once it suffices -/
+
+theorem search1_fuel_succ {X} (num : Num X) (cutter : X) (n dir orig : Int) :
+    ∀ (fuel : Nat) (items : List PItem) (sel : Int) (d : Bool) (r : List PItem),
+      search1 num cutter n dir orig fuel items sel d = some r →
+      search1 num cutter n dir orig (fuel + 1) items sel d = some r := by
+  intro fuel
+  induction fuel with
+  | zero => intro items sel d r h; simp [search1] at h
+  | succ f ih =>
+    intro items sel d r h
+    unfold search1 at h ⊢
+    split at h
+    · simp at h
+    · rename_i hs
+      rw [if_neg hs]
+      split at h
+      · simp at h
+      · rename_i cur hcur
+        simp only [] at h ⊢
+        split at h
+        · rename_i hc
+          rw [if_pos hc]; exact h
+        · rename_i hc
+          rw [if_neg hc]; exact ih _ _ _ _ h
+
+theorem search1_fuel_mono {X} (num : Num X) (cutter : X) (n dir orig : Int) (fuel k : Nat)
+    (items : List PItem) (sel : Int) (d : Bool) (r : List PItem)
+    (h : search1 num cutter n dir orig fuel items sel d = some r) :
+    search1 num cutter n dir orig (fuel + k) items sel d = some r := by
+  induction k with
+  | zero => exact h
+  | succ k ih => exact search1_fuel_succ _ _ _ _ _ _ _ _ _ _ ih
+
 end InstGen
